@@ -44,7 +44,10 @@ META = dict(
          "unknown label keys, cron_offset and aware / subclass datetimes on one-shots, one-shots with equal times, one label dict shared "
          "by two tasks - with a label-source one-shot that fires >= 4 min before the end; 5 % carry groups of 2-4 one-shots with equal times "
          "in ONE task of the label source whose earlier-listed members' sends fail / are still in flight at later polls / complete after "
-         "the later-listed ones', with controls: no fault, naive next to aware times, the group in a scripted removing source); non-trivial iff it crosses >= 3 minute boundaries "
+         "the later-listed ones', with controls: no fault, naive next to aware times, the group in a scripted removing source; 6 % have "
+         "sources that write get_schedules / pre_send / post_send as plain def / async def / plain def returning a coroutine, Task, Future, "
+         "done Future, __await__-only object, generator-based coroutine, gather, shield - methods of the class or bound on the instance "
+         "after the scheduler was built - every style in every check, with a one-shot that fires >= 4 min before the end); non-trivial iff it crosses >= 3 minute boundaries "
          "with a cron both due and not due, >= 1 one-shot, >= 1 injected failure; distinct by canonical JSON",
     trusted_base=["model: coq/theories/SchedLoop.v (hand-written transcription of taskiq/cli/scheduler/run.py loop + system model)",
                   "exact virtual-time loop and datetime shim in harness/drivers/sched_driver.py (one clock for wall and monotonic time)",
@@ -848,6 +851,107 @@ def count_equal(rep, c, o):
                 else "trigger-of-a-later-listed-member" if x in a else "ANOTHER-TRIGGER"))
 
 
+# ------------------------------------------------------------------ how the sources' callbacks are written
+NCB = (30, 800)                           # runs whose sources write get_schedules / pre_send / post_send in varied styles
+LIST_STYLES = ["async", "coro", "task", "future", "awaitobj", "gencoro", "shield"]
+CB_STYLES = ["sync", "async", "coro", "task", "future", "done_future", "awaitobj", "gencoro", "gather", "shield"]
+CB_BINDS = ["class", "class", "class", "instance", "callable", "partial"]
+
+
+def gen_cb(r, k=None):
+    """how ONE source writes its callbacks (see sched_driver.styled): k given = the k-th run of the family, whose aimed source
+    walks through the styles so that every style of every callback occurs in every check"""
+    if k is None:
+        return dict(list=r.choice(LIST_STYLES), pre=r.choice([None, None] + CB_STYLES), post=r.choice(CB_STYLES),
+                    bind=r.choice(CB_BINDS))
+    return dict(list=LIST_STYLES[(k // 2) % len(LIST_STYLES)], pre=([None] + CB_STYLES)[(k // 3) % (len(CB_STYLES) + 1)],
+                post=CB_STYLES[k % len(CB_STYLES)], bind=CB_BINDS[2:][(k // len(CB_STYLES) + k) % 4])
+
+
+def stylize(r, c, k=None):
+    """How the SOURCES are written, which every loop run so far held constant: `async def get_schedules`, no pre_send of
+    their own, post_send a plain def that does the removal itself.  The scheduler takes whatever a callback hands back
+    (taskiq.utils.maybe_awaitable, `await source.get_schedules()`), so here each source of the run writes each of the three
+    as: plain def doing the work / `async def` / plain def returning a coroutine object, a Task, a bare Future resolved by work
+    running elsewhere, a Future already done, an object that is awaitable through __await__ only (a lazy query object: the
+    removal runs when it is awaited, and only then), a generator-based coroutine, asyncio.gather(...) / asyncio.shield(...) -
+    as methods of the class or bound on the instance after the scheduler was built (bound method, callable object,
+    functools.partial).  The work and its virtual instants are unchanged, so the statement and the model demand what they
+    always did; a callback whose awaitable is dropped shows as a one-shot that stays listed and is sent again after its send
+    had completed (post_send), or as a send that never happens (a callback raising on it).  With k (the family's own runs) one
+    removing / label source is aimed: its style is the k-th of the walk and it gets a one-shot without presence window or
+    kick fault that fires >= 4 minutes before the end.  Applied to a run of any family (everything else stays as it was)."""
+    srcs = c["sources"]
+    for s in srcs:
+        s["cb"] = gen_cb(r)
+    if k is None:
+        return c
+    start, end = c["start"], c["end"]
+    m0, m1 = start // MIN, end // MIN
+    cand = [i for i, s in enumerate(srcs) if s["kind"] != "static"]
+    if not cand:
+        i = r.randrange(len(srcs))
+        srcs[i]["kind"] = "removing"
+        cand = [i]
+    i = r.choice(cand)
+    s = srcs[i]
+    s["cb"] = gen_cb(r, k)
+    used_T = {e["T"] for x in srcs for e in x["entries"] if e["kind"] == "one"}
+    mm = r.randrange(m0, max(m0 + 1, m1 - 4)) * MIN
+    T = r.choice([mm, mm + 500_000, mm + US, mm - 1, mm + 1, mm + r.randrange(MIN), mm + r.randrange(MIN), start - r.randrange(1, 5 * MIN)])
+    while T in used_T:
+        T += 1
+    sid = max(e["sid"] for x in srcs for e in x["entries"]) + 1
+    e = dict(sid=sid, add=None, **{"del": None}, kind="one", T=T, aimed=True)
+    if s["kind"] == "label":
+        e["task"] = r.choice(["t0", "t1", "t2"])
+    s["entries"].append(e)
+    c["kfail"] = [x for x in c["kfail"] if not (x[0] == i and x[1] == sid)]
+    for n in range(8):
+        c["klat"]["%d:%d:%d" % (i, sid, n)] = odd(r.randrange(0, 2 * US) if r.random() < .9 else r.randrange(0, 70 * US))
+    if s["kind"] == "label":
+        s["entries"].sort(key=lambda e: (e["task"], e["add"] is not None, e["add"] or 0))
+    else:
+        s["entries"].sort(key=lambda e: (e["add"] is not None, e["add"] or 0))
+    c["family"] = "callback-styles"
+    return c
+
+
+def gen_callbacks(r, k):
+    q = r.random()
+    c = gen_payload(r) if q < .12 else gen_zones(r) if q < .2 else gen_case(r, long=q > .96)
+    return stylize(r, c, k)
+
+
+def count_callbacks(rep, c, o):
+    """evidence distribution of the callback styles, and of the one-shots whose removal by a post_send of each style later polls
+    could have contradicted"""
+    for i, s in enumerate(c["sources"]):
+        cb = s.get("cb")
+        if not cb:
+            continue
+        lab = ":label-source" if s["kind"] == "label" else ""
+        rep.count("callbacks:sources-with-written-callbacks")
+        rep.count("callbacks:get_schedules:" + cb["list"] + lab)
+        rep.count("callbacks:pre_send:" + (cb["pre"] or "inherited") + lab)
+        rep.count("callbacks:post_send:" + cb["post"] + lab)
+        rep.count("callbacks:found-by-the-scheduler-as:" + {"class": "method-of-the-class", "instance": "bound-method-set-on-the-instance",
+                                                            "callable": "callable-object-set-on-the-instance",
+                                                            "partial": "functools.partial-set-on-the-instance"}[cb["bind"]])
+        if cb["pre"]:
+            rep.count("callbacks:pre_send:calls:" + cb["pre"], sum(1 for x in o.get("pres", []) if x[1] == i))
+        rep.count("callbacks:post_send:calls:" + cb["post"], sum(1 for x in o["posts"] if x[1] == i))
+        if s["kind"] == "static":
+            continue
+        for e in s["entries"]:
+            if e["kind"] != "one":
+                continue
+            done = [k[7] for k in o["kicks"] if k[0] == i and k[1] == e["sid"] and k[4] is True and k[7] is not None]
+            if done:
+                later = sum(1 for q in o["polls"] if q["snaps"][i] is not None and q["snaps"][i] > min(done))
+                rep.count("callbacks:one-shot-sent:post_send-%s:later-polls-%s" % (cb["post"], ">=3" if later >= 3 else "1-2" if later else "0") + lab)
+
+
 def same_expr_groups(c):
     """groups of cron entries that share the expression string but not the cron_offset: [(expr, [(source, entry), ...])]"""
     by = {}
@@ -995,7 +1099,11 @@ def oracle(c, o):
                     break
             if s["kind"] == "static":
                 continue
-            first_done = min(posts.get(key, [None]), default=None) if posts.get(key) else None
+            # the instant the first send of this one-shot COMPLETED: its kick returned without raising (the unchanged
+            # scheduler runs post_send at that very instant; taken from the broker, not from the source's callback, so that a
+            # callback that never runs does not pass for a send still in flight)
+            first_done = min([kk[7] for (ki, ks, _), kk in kicks.items() if (ki, ks) == key and kk[4] is True and kk[7] is not None],
+                             default=None)
             for a in atts[1:]:
                 earlier = [x for x in atts if x["n"] < a["n"]]
                 failed_before = any(kicks.get((i, e["sid"], x["n"])) is not None and kicks[(i, e["sid"], x["n"])][4] is False
@@ -1022,6 +1130,7 @@ def oracle(c, o):
                            "after that poll + 1 s)")
                 out.append(("one-shot sent again" + how,
                             {"kind": "oneshot_resent", "overlap": bool(inflight), "armed_in_window": bool(armed_in_window),
+                             "source": i, "sid": e["sid"], "attempt": a["n"], "poll": a["poll"],
                              "poll_at_or_before_first_fire": polls[a["poll"]]["calls"][i] <= atts[0]["fire"]}))
     return out
 
@@ -1247,6 +1356,7 @@ def explore(ctx, rep, cases, label, shard=25, chunk=None):
         if c.get("family") == "payload" or any(e.get("pay") for s in c["sources"] for e in s["entries"]):
             count_payload(rep, c, o)
         count_equal(rep, c, o)
+        count_callbacks(rep, c, o)
         rep.count("kicks", len(o["kicks"]))
         rep.count("kicks:failed", sum(1 for k in o["kicks"] if k[4] is False))
         for s in c["sources"]:
@@ -1326,6 +1436,10 @@ def run(ctx):
         corpus_known["oneshot_resent_by_overlapping_poll"] = bool(d7)
     r = ctx.sub_rng("gen")
     cases = [gen_case(r, long=(k % 25 == 0)) for k in range(ctx.n(400, 9000))]
+    r7 = ctx.sub_rng("callbacks")
+    for k, c in enumerate(cases):          # 1 in 14 of the plain runs: the same run, its sources written in other styles
+        if k % 14 == 9:
+            stylize(r7, c)
     broken = explore(ctx, rep, cases, "main")
     # long runs (hours; ~26 h): few schedules whose next occurrence is an hour / some hours / a day away - see gen_long
     r3 = ctx.sub_rng("long")
@@ -1345,6 +1459,8 @@ def run(ctx):
     # same-task equal-time one-shots with failing / slow earlier sends - see equalize; then the two replays of the known finding
     r6 = ctx.sub_rng("equal-times")
     broken = explore(ctx, rep, [gen_eqfaults(r6) for _ in range(ctx.n(*NEQ))], "equal-times-faults") or broken
+    # runs whose sources write get_schedules / pre_send / post_send in varied styles - see stylize
+    broken = explore(ctx, rep, [gen_callbacks(r7, k) for k in range(ctx.n(*NCB))], "callback-styles") or broken
     corpus_known[SIG_EQ] = known_equal_times(ctx, rep)
     unexplained = [f for f in rep.failures if not sig_d7(f) and not sig_eq(f)]
     if (broken or any(not o["ok"] for o in rep.obligations)) and not unexplained:
@@ -1414,6 +1530,10 @@ def replay(ctx, path):
     except (AssertionError, ValueError, TypeError) as e:
         print("observation not encodable for the model:", e)
     print("post_send calls (instant, source, sid, attempt, entries whose trigger it removed):", o["posts"][:60])
+    for i, s in enumerate(c["sources"]):
+        if s.get("cb"):
+            print("source %d writes its callbacks as %s; its pre_send calls (instant, source, sid, attempt): %s" % (
+                i, s["cb"], [x for x in o.get("pres", []) if x[1] == i][:30]))
     if foreign_removals(c, o):
         print("(a post_send removed the trigger of another entry: the model, which identifies entries by schedule id, cannot "
               "follow this run)")
